@@ -317,6 +317,104 @@ fn opt(v: Option<u32>) -> String {
     v.map_or("null".to_string(), |x| x.to_string())
 }
 
+/// C13 measured with the PUBLIC accuracy functions: (|target - accuracy(generated)|, the smallest
+/// |target - accuracy(other)| over every other distribution of hit results over the same objects and
+/// misses, everything else of the generated state kept).  Only for small shapes.
+fn public_measure(c: &GsCase) -> Option<(f64, f64)> {
+    let target = c.acc?.clamp(0.0, 100.0) / 100.0;
+    let dist = |a: f64| (target - a).abs();
+    match c.mode {
+        0 => {
+            let mut p = osu_perf(c);
+            let s = p.generate_state().ok()?;
+            let lazer = c.lazer.unwrap_or(true);
+            let origin = match (lazer, c.cl) {
+                (false, _) => rosu_pp::osu::OsuScoreOrigin::Stable,
+                (true, false) => rosu_pp::osu::OsuScoreOrigin::WithSliderAcc {
+                    max_large_ticks: c.attrs[3],
+                    max_slider_ends: c.attrs[1],
+                },
+                (true, true) => rosu_pp::osu::OsuScoreOrigin::WithoutSliderAcc {
+                    max_large_ticks: c.attrs[1] + c.attrs[3],
+                    max_small_ticks: c.attrs[1],
+                },
+            };
+            let n = s.n300 + s.n100 + s.n50;
+            if n > 40 {
+                return None;
+            }
+            let gen = dist(s.accuracy(origin));
+            let mut best = f64::INFINITY;
+            for a in 0..=n {
+                for b in 0..=(n - a) {
+                    let t = OsuScoreState { n300: a, n100: b, n50: n - a - b, ..s.clone() };
+                    best = best.min(dist(t.accuracy(origin)));
+                }
+            }
+            Some((gen, best))
+        }
+        1 => {
+            let mut p = taiko_perf(c);
+            let s = p.generate_state().ok()?;
+            let n = s.n300 + s.n100;
+            if n > 200 {
+                return None;
+            }
+            let gen = dist(s.accuracy());
+            let mut best = f64::INFINITY;
+            for a in 0..=n {
+                let t = TaikoScoreState { n300: a, n100: n - a, ..s.clone() };
+                best = best.min(dist(t.accuracy()));
+            }
+            Some((gen, best))
+        }
+        2 => {
+            let mut p = catch_perf(c);
+            let s = p.generate_state().ok()?;
+            let n = s.tiny_droplets + s.tiny_droplet_misses;
+            if n > 200 {
+                return None;
+            }
+            let gen = dist(s.accuracy());
+            let mut best = f64::INFINITY;
+            for a in 0..=n {
+                let t = CatchScoreState { tiny_droplets: a, tiny_droplet_misses: n - a, ..s.clone() };
+                best = best.min(dist(t.accuracy()));
+            }
+            Some((gen, best))
+        }
+        _ => {
+            let mut p = mania_perf(c);
+            let s = p.generate_state().ok()?;
+            let n = s.n320 + s.n300 + s.n200 + s.n100 + s.n50;
+            if n > 12 {
+                return None;
+            }
+            let classic = c.cl || !c.lazer.unwrap_or(true);
+            let gen = dist(s.accuracy(classic));
+            let mut best = f64::INFINITY;
+            for a in 0..=n {
+                for b in 0..=(n - a) {
+                    for d in 0..=(n - a - b) {
+                        for e in 0..=(n - a - b - d) {
+                            let t = ManiaScoreState {
+                                n320: a,
+                                n300: b,
+                                n200: d,
+                                n100: e,
+                                n50: n - a - b - d - e,
+                                ..s.clone()
+                            };
+                            best = best.min(dist(t.accuracy(classic)));
+                        }
+                    }
+                }
+            }
+            Some((gen, best))
+        }
+    }
+}
+
 pub fn case_json(c: &GsCase) -> String {
     let o = Obj::new()
         .raw("mode", c.mode)
@@ -340,6 +438,11 @@ pub fn case_json(c: &GsCase) -> String {
         )
         .raw("cl", c.cl)
         .raw("passed", opt(c.passed));
+    let o = match catch_unwind(AssertUnwindSafe(|| public_measure(c))) {
+        Ok(Some((g, b))) => o.raw("pub_gen", g.to_bits()).raw("pub_best", b.to_bits()),
+        Ok(None) => o,
+        Err(e) => o.str("panic_public_measure", &panic_msg(e)),
+    };
     match catch_unwind(AssertUnwindSafe(|| run_case(c))) {
         Ok((s1, s2, eq)) => o
             .raw("out", arr(s1))
